@@ -500,6 +500,49 @@ def run(ctx, replay_lines=None):
         ctx.violation(sig, {"kind": "parser-oracle", "detail": f, "lines": [f.get("ref_case"), f["case"]] if f.get("ref_case") else [f["case"]]},
                       what="%s: %s" % (f["why"], f["case"][:160]))
 
+    # (E0) the error text must not depend on heap activity: texts whose error is a message GENERATED at run time (delim_error: a heap string
+    #      that only the parser references, kept alive by parsermark iff flag JANET_PARSER_GENERATED_ERROR is set) are run again on the
+    #      UN-instrumented build with and without a collection + allocations + collection between the latch and parser/error
+    heap_runs, heap_texts = 0, 0
+    try:
+        hplain = ctx.build.harness("plain", "c11p", [os.path.join(VERIF, "harness/C11/pharness.c")])
+    except BuildError:
+        hplain = None
+    if hplain:
+        first = {}
+        for i, ti in enumerate(owner):
+            if ti >= 0 and ti not in first:
+                first[ti] = i
+        cand = [ti for ti, i in sorted(first.items()) if "opened_at_line" in split_out(outs[i])[0]]
+        kinds_seen = collections.Counter()
+        pick = []
+        for ti in cand:       # every corpus scenario, then a spread over the opener kinds
+            ev = split_out(outs[first[ti]])[0]
+            k = ev.split("e:")[-1].split("_opened_at")[0][-3:]
+            if texts[ti].get("kind") == "corpus" or kinds_seen[k] < (40 if quick else 400):
+                kinds_seen[k] += 1
+                pick.append(ti)
+        hl, hown = [], []
+        for ti in pick:
+            t = texts[ti]
+            base_s = G.schedule_whole(len(t["bytes"]), t["flushes"], "c")
+            for sc in (base_s, "g," + base_s, "g," + G.schedule_whole(len(t["bytes"]), t["flushes"], "b"), "g,K,G," + base_s):
+                hl.append("case %s %s" % (t["bytes"].hex() or "-", sc))
+                hown.append(ti)
+        houts, hcr = run_harness(hplain, hl)
+        heap_runs, heap_texts = len(hl), len(pick)
+        seen_h = set()
+        for l, ti, o in zip(hl, hown, houts):
+            ref_ev = split_out(outs[first[ti]])[0]
+            got = "CRASH" if o == "CRASH" else split_out(o)[0]
+            if got != ref_ev and ti not in seen_h:
+                seen_h.add(ti)
+                sig = "parse:error-text-depends-on-heap-activity"
+                if sig not in reported:
+                    reported.add(sig)
+                    ctx.violation(sig, {"kind": "heap-activity", "lines": [lines[first[ti]], l], "expected_events": ref_ev, "observed_events": got[:600]},
+                                  what="same bytes, error read after a collection and unrelated allocations: %s instead of %s (%s)" % (got[-120:], ref_ev[-120:], l[:120]))
+
     # (E1) history independence of complete forms (scratch-buffer reuse)
     alone, hcrashes, hlines = history_oracle(hx, seqs)
     report_crashes(ctx, hx, hcrashes, "while parsing a single form")
@@ -757,7 +800,7 @@ def run(ctx, replay_lines=None):
                 "with clone points and interleaved status/where/state/has-more/produce/error/GC); a jdn case = one value term; non-trivial = distinct protocol line",
         "samples": [lines[0][:200], lines[len(lines) // 2][:200], rt_lines[-1][:200]],
         "texts": len(texts), "schedules_per_text": nsched, "parser_runs": len(lines),
-        "oracle_failures": len(fails), "history_independence_forms_checked": hist_checked, "history_independence_error_forms": hist_errors, "sequence_texts": len(seqs), "correspondence_runs": model_lines, "correspondence_diffs": len(diffs),
+        "oracle_failures": len(fails), "heap_activity_error_texts": heap_texts, "heap_activity_runs_plain_build": heap_runs, "history_independence_forms_checked": hist_checked, "history_independence_error_forms": hist_errors, "sequence_texts": len(seqs), "correspondence_runs": model_lines, "correspondence_diffs": len(diffs),
         "jdn_terms": len(rt_lines), "jdn_results": dict(rt_stats), "jdn_printer_correspondence_diffs": len(pdiffs),
         "capacity_dumps_compared": sum(o.count(" cap:") for o in outs) if exe else 0,
         "physical_machine_runs": model_lines, "physical_machine_faults": len(phys_faults),
@@ -797,6 +840,11 @@ def replay(ctx, path):
     bad = False
     if r.get("kind") == "jdn-roundtrip":
         bad = any(not o.startswith("ok") for o in outs)
+    elif r.get("kind") == "heap-activity":
+        hplain = ctx.build.harness("plain", "c11p", [os.path.join(VERIF, "harness/C11/pharness.c")])
+        o2, c2 = run_harness(hplain, lines[1:])
+        print("plain build:", lines[1][:300], "\n  ->", (o2 or ["CRASH"])[0][:600])
+        bad = bool(c2) or not o2 or split_out(o2[0])[0] != r.get("expected_events")
     elif r.get("kind") == "history":
         ev = [split_out(o)[0].split() for o in outs]
         fi = r.get("form_index", 0)
